@@ -34,6 +34,10 @@ type SegmentGenerator struct {
 
 	sequenceNo int      // 片段序号
 	current    *segment //current segment
+	// the first segment has no start time yet. Its duration must not be measured from 0:
+	// stream time rarely starts there, the segment would look hours long and the first
+	// audio frame would reap it in the middle of a GOP.
+	startPending bool
 
 	logger *xlog.Logger
 
@@ -65,6 +69,9 @@ func NewSegmentGenerator(playlist *Playlist, path string, hlsFragment int, segme
 	// set the current segment to sequence header,
 	// when close the segement, it will write a discontinuity to m3u8 file.
 	sg.current.isSequenceHeader = true
+	// the start time of the first segment is not known yet: it is taken from the
+	// first frame written (flushFrame)
+	sg.startPending = true
 	return sg, nil
 }
 
@@ -161,6 +168,10 @@ func (sg *SegmentGenerator) flushAudioCache() (err error) {
 }
 
 func (sg *SegmentGenerator) flushFrame(frame *mpegts.Frame) (err error) {
+	if sg.startPending {
+		sg.startPending = false
+		sg.current.segmentStartPts = frame.Pts
+	}
 	sg.current.updateDuration(frame.Pts)
 	if err = sg.current.file.writeFrame(frame); err != nil {
 		return
